@@ -46,6 +46,12 @@ is a fixed function of (check, family); the site is ``Msg.Block.Var[ctx]:<where>
      different registered serializer; sequences [fail], [fail, fail], [foreign fail], [foreign fail, fail] followed by one
      of: serialize(value), serialize(pod form), Block.serialize_var -- the bytes must equal what two consecutive
      encodes produced before any failure (encode-independent, site <key>:after-failed-encode[:foreign]).
+ (h) second subclass: for each abstract subfield-serializer base addons subclass (FlagSwitched, EnumSwitched, Simple/TEMPLATE,
+     AdapterSubfieldSerializer, AdapterInstance (IntEnum/IntFlagSubfieldSerializer), the registration helpers) two
+     harness-defined addon-style subclasses with DIFFERENT templates behind the SAME selector values + one shipped
+     subclass, used interleaved in every order; each must round-trip its own hand-built reference bytes (payload-roundtrip,
+     site second-subclass:<base>:<class>:<encode|decode|obj|pod|raises>) and a failed encode in one must not change the
+     next encode of another (encode-independent, ...:after-failed-encode:foreign).  Harness registrations are removed again.
  (f) date entries (adapter class DateAdapter) under process TZ in {UTC, America/Los_Angeles, Europe/London,
      Australia/Lord_Howe}, TZ switched with os.environ+time.tzset() only inside dedicated forked workers (hmc.subfieldgen
      .tz_map; replay of a TZ witness forks as well).  Input families: 'boundary' = the int alphabet (date-roundtrip /
@@ -1195,6 +1201,247 @@ def unit_assign(ent: Entry) -> dict:
     return part.dump()
 
 
+# ------------------------------------------------------------------------------------------------ (h) second subclass
+def _second_subclass_participants() -> Dict[str, List[dict]]:
+    """For each abstract subfield-serializer base that addons subclass: two harness-defined addon-style subclasses with
+    DIFFERENT templates behind the SAME selector values + one shipped subclass.  Every case carries hand-built reference
+    bytes (struct / literal ints), the value that must encode to them and, for harness classes, the value they decode to."""
+    import hippolyzer.lib.base.templates as T
+
+    class FlagsA(dtypes.IntFlag):
+        POSITION = 1
+        ROTATION = 2
+        SCALE = 4
+
+    class FlagsB(dtypes.IntFlag):
+        POSITION = 1
+        OTHER = 2
+        SCALE = 4
+
+    class KindA(dtypes.IntEnum):
+        X = 7
+        Y = 14
+
+    class KindB(dtypes.IntEnum):
+        P = 7
+        Q = 14
+
+    class AddonFlagsA(se.FlagSwitchedSubfieldSerializer):
+        FLAG_FIELD = "Type"
+        TEMPLATES = {FlagsA.POSITION: se.U8, FlagsA.ROTATION: se.U16, FlagsA.SCALE: se.U8}
+
+    class AddonFlagsB(se.FlagSwitchedSubfieldSerializer):
+        FLAG_FIELD = "Type"
+        TEMPLATES = {FlagsB.POSITION: se.U32, FlagsB.OTHER: se.U8, FlagsB.SCALE: se.U16}
+
+    class AddonEnumA(se.EnumSwitchedSubfieldSerializer):
+        ENUM_FIELD = "Type"
+        TEMPLATES = {KindA.X: se.Template({"a": se.U8}), KindA.Y: se.Template({"b": se.U16})}
+
+    class AddonEnumB(se.EnumSwitchedSubfieldSerializer):
+        ENUM_FIELD = "Type"
+        TEMPLATES = {KindB.P: se.Template({"a": se.U32}), KindB.Q: se.Template({"c": se.U8, "d": se.U8})}
+
+    class AddonSimpleA(se.SimpleSubfieldSerializer):
+        TEMPLATE = se.Template({"x": se.U8})
+
+    class AddonSimpleB(se.SimpleSubfieldSerializer):
+        TEMPLATE = se.Template({"x": se.U16, "y": se.U8})
+        EMPTY_IS_NONE = True
+
+    class AddonAdapterA(se.AdapterSubfieldSerializer):
+        ADAPTER = se.IntEnum(KindA)
+
+    class AddonAdapterB(se.AdapterSubfieldSerializer):
+        ADAPTER = se.IntFlag(FlagsB)
+
+    def blk(sel):
+        b = Block("HarnessBlock", Type=sel)
+        b.message_name = "HarnessMessage"
+        return b
+
+    f3 = struct.pack("<3f", 1.0, -1.5, 0.5)
+    u1, u2 = bytes(range(1, 17)), bytes(range(17, 33))
+    out: Dict[str, List[dict]] = {}
+
+    # -- FlagSwitched: every flag word 0..7
+    fa, fb, shipped = [], [], []
+    for wv in range(8):
+        va, ra = {}, b""
+        vb, rb = {}, b""
+        vs, rs = {}, b""
+        if wv & 1:
+            va["POSITION"], ra = 0x11, ra + b"\x11"
+            vb["POSITION"], rb = 0x44332211, rb + struct.pack("<I", 0x44332211)
+            vs["POSITION"], rs = (1.0, -1.5, 0.5), rs + f3
+        if wv & 2:
+            va["ROTATION"], ra = 0x2211, ra + struct.pack("<H", 0x2211)
+            vb["OTHER"], rb = 0x7F, rb + b"\x7f"
+            vs["ROTATION"], rs = (0.5, 0.25, 0.0), rs + struct.pack("<3f", 0.5, 0.25, 0.0)
+        if wv & 4:
+            va["SCALE"], ra = 0x33, ra + b"\x33"
+            vb["SCALE"], rb = 0x5544, rb + struct.pack("<H", 0x5544)
+            vs["SCALE"], rs = (1.0, -1.5, 0.5), rs + f3
+        fa.append({"sel": wv, "value": va, "ref": ra, "decoded": va})
+        fb.append({"sel": wv, "value": vb, "ref": rb, "decoded": vb})
+        shipped.append({"sel": wv, "value": vs, "ref": rs, "decoded": None})
+    out["FlagSwitchedSubfieldSerializer"] = [
+        {"name": "AddonFlagsA", "ser": AddonFlagsA, "block": blk, "cases": fa, "bad": {"POSITION": _Poison()}, "bad_sel": 1},
+        {"name": "AddonFlagsB", "ser": AddonFlagsB, "block": blk, "cases": fb, "bad": {"POSITION": 1, "OTHER": _Poison()}, "bad_sel": 3},
+        {"name": "shipped:MultipleObjectUpdateDataSerializer", "ser": T.MultipleObjectUpdateDataSerializer, "block": blk, "cases": shipped},
+    ]
+    # -- EnumSwitched: selector values 7 and 14 mean different things to each subclass (and to ViewerEffect: BEAM / LOOKAT)
+    spiral = u1 + u2 + struct.pack("<3d", 1.0, -1.5, 0.5)
+    out["EnumSwitchedSubfieldSerializer"] = [
+        {"name": "AddonEnumA", "ser": AddonEnumA, "block": blk, "bad": {"b": _Poison()}, "bad_sel": 14,
+         "cases": [{"sel": 7, "value": {"a": 0x11}, "ref": b"\x11", "decoded": {"a": 0x11}},
+                   {"sel": 14, "value": {"b": 0x2211}, "ref": b"\x11\x22", "decoded": {"b": 0x2211}}]},
+        {"name": "AddonEnumB", "ser": AddonEnumB, "block": blk, "bad": {"c": 1, "d": _Poison()}, "bad_sel": 14,
+         "cases": [{"sel": 7, "value": {"a": 0x44332211}, "ref": b"\x11\x22\x33\x44", "decoded": {"a": 0x44332211}},
+                   {"sel": 14, "value": {"c": 5, "d": 6}, "ref": b"\x05\x06", "decoded": {"c": 5, "d": 6}}]},
+        {"name": "shipped:ViewerEffectDataSerializer", "ser": T.ViewerEffectDataSerializer, "block": blk,
+         "cases": [{"sel": 7, "value": {"SourceID": dtypes.UUID(bytes=u1), "TargetID": dtypes.UUID(bytes=u2), "TargetPos": (1.0, -1.5, 0.5)},
+                    "ref": spiral, "decoded": None},
+                   {"sel": 14, "value": {"SourceID": dtypes.UUID(bytes=u1), "TargetID": dtypes.UUID(bytes=u2), "TargetPos": (1.0, -1.5, 0.5),
+                                         "LookTargetType": 3}, "ref": spiral + b"\x03", "decoded": None}]},
+    ]
+    # -- Simple (BaseSubfieldSerializer with TEMPLATE)
+    out["SimpleSubfieldSerializer"] = [
+        {"name": "AddonSimpleA", "ser": AddonSimpleA, "block": blk, "bad": {"x": _Poison()}, "bad_sel": 0,
+         "cases": [{"sel": 0, "value": {"x": 0x11}, "ref": b"\x11", "decoded": {"x": 0x11}}]},
+        {"name": "AddonSimpleB", "ser": AddonSimpleB, "block": blk, "bad": {"x": 1, "y": _Poison()}, "bad_sel": 0,
+         "cases": [{"sel": 0, "value": {"x": 0x2211, "y": 0x33}, "ref": b"\x11\x22\x33", "decoded": {"x": 0x2211, "y": 0x33}},
+                   {"sel": 0, "value": None, "ref": b"", "decoded": None, "decoded_is_none": True}]},
+        {"name": "shipped:AgentThrottlesSerializer", "ser": T.AgentThrottlesSerializer, "block": blk,
+         "cases": [{"sel": 0, "value": [1.0, -1.5], "ref": struct.pack("<2f", 1.0, -1.5), "decoded": [1.0, -1.5]}]},
+    ]
+    # -- adapter-style serializers (integers; reference = the integer itself)
+    out["AdapterSubfieldSerializer"] = [
+        {"name": "AddonAdapterA", "ser": AddonAdapterA, "block": blk,
+         "cases": [{"sel": 0, "value": KindA.X, "ref": 7, "decoded": KindA.X}, {"sel": 0, "value": "Y", "ref": 14, "decoded": KindA.Y}]},
+        {"name": "AddonAdapterB", "ser": AddonAdapterB, "block": blk,
+         "cases": [{"sel": 0, "value": ("POSITION", "OTHER", "SCALE"), "ref": 7, "decoded": FlagsB(7)},
+                   {"sel": 0, "value": FlagsB.OTHER, "ref": 2, "decoded": FlagsB.OTHER}]},
+        {"name": "shipped:SendXferPacketIDSerializer", "ser": T.SendXferPacketIDSerializer, "block": blk,
+         "cases": [{"sel": 0, "value": {"PacketID": 7, "IsEOF": True}, "ref": 0x80000007, "decoded": None}]},
+    ]
+    out["AdapterInstanceSubfieldSerializer"] = [
+        {"name": "IntEnumSubfieldSerializer(KindA)", "ser": se.IntEnumSubfieldSerializer(KindA), "block": blk,
+         "cases": [{"sel": 0, "value": "X", "ref": 7, "decoded": KindA.X}, {"sel": 0, "value": KindA.Y, "ref": 14, "decoded": KindA.Y}]},
+        {"name": "IntEnumSubfieldSerializer(KindB)", "ser": se.IntEnumSubfieldSerializer(KindB), "block": blk,
+         "cases": [{"sel": 0, "value": "P", "ref": 7, "decoded": KindB.P}, {"sel": 0, "value": "Q", "ref": 14, "decoded": KindB.Q}]},
+        {"name": "IntFlagSubfieldSerializer(FlagsA)", "ser": se.IntFlagSubfieldSerializer(FlagsA), "block": blk,
+         "cases": [{"sel": 0, "value": ("POSITION", "ROTATION"), "ref": 3, "decoded": FlagsA(3)}]},
+        {"name": "IntFlagSubfieldSerializer(FlagsB)", "ser": se.IntFlagSubfieldSerializer(FlagsB), "block": blk,
+         "cases": [{"sel": 0, "value": ("POSITION", "OTHER"), "ref": 3, "decoded": FlagsB(3)}]},
+    ]
+    # -- registration helpers: registered under harness-only keys (removed again by the caller)
+    keys = [("HarnessMessage", "HarnessBlock", n) for n in ("EnumA", "EnumB", "FlagA", "FlagB", "SimpleA")]
+    se.enum_field_serializer(*keys[0])(KindA)
+    se.enum_field_serializer(*keys[1])(KindB)
+    se.flag_field_serializer(*keys[2])(FlagsA)
+    se.flag_field_serializer(*keys[3])(FlagsB)
+    se.subfield_serializer(*keys[4])(AddonSimpleA)
+    R = se.SUBFIELD_SERIALIZERS
+    out["registration-helpers"] = [
+        {"name": "enum_field_serializer(KindA)", "ser": R[keys[0]], "block": blk, "cases": [{"sel": 0, "value": "X", "ref": 7, "decoded": KindA.X}]},
+        {"name": "enum_field_serializer(KindB)", "ser": R[keys[1]], "block": blk, "cases": [{"sel": 0, "value": "P", "ref": 7, "decoded": KindB.P}]},
+        {"name": "flag_field_serializer(FlagsA)", "ser": R[keys[2]], "block": blk, "cases": [{"sel": 0, "value": ("ROTATION",), "ref": 2, "decoded": FlagsA.ROTATION}]},
+        {"name": "flag_field_serializer(FlagsB)", "ser": R[keys[3]], "block": blk, "cases": [{"sel": 0, "value": ("OTHER",), "ref": 2, "decoded": FlagsB.OTHER}]},
+        {"name": "subfield_serializer(AddonSimpleA)", "ser": R[keys[4]], "block": blk,
+         "cases": [{"sel": 0, "value": {"x": 0x11}, "ref": b"\x11", "decoded": {"x": 0x11}}]},
+    ]
+    out["__keys__"] = keys  # type: ignore
+    return out
+
+
+def run_second_subclass(part: Part, only_base: Optional[str] = None) -> int:
+    """Use the participants of each base interleaved in every order (all permutations of who goes first; within an order
+    all cases of all participants, round-robin) and hold each to its own hand-built reference."""
+    import itertools
+    before = set(se.SUBFIELD_SERIALIZERS)
+    n = 0
+    try:
+        parts = _second_subclass_participants()
+        keys = parts.pop("__keys__")
+        for base, plist in parts.items():
+            if only_base and base != only_base:
+                continue
+            for order in itertools.permutations(range(len(plist))):
+                w = {"kind": "second-subclass", "base": base, "order": list(order)}
+                rounds = max(len(plist[i]["cases"]) for i in order)
+                for r in range(rounds):
+                    for i in order:
+                        pt = plist[i]
+                        if r >= len(pt["cases"]):
+                            continue
+                        case = pt["cases"][r]
+                        site = f"second-subclass:{base}:{pt['name']}"
+                        block = pt["block"](case["sel"])
+                        ser, ref = pt["ser"], case["ref"]
+                        n += 1
+                        try:
+                            got = ser.serialize(block, case["value"])
+                            if not _same_raw(got, ref):
+                                part.violation("payload-roundtrip", f"{site}:encode", w, f"selector {case['sel']}: {case['value']!r:.120} encodes to "
+                                                                                       f"{_show(got)}, reference {_show(ref)}")
+                            for pod in (False, True):
+                                d = ser.deserialize(block, ref, pod=pod)
+                                if d is se.UNSERIALIZABLE:
+                                    continue
+                                if not pod and case.get("decoded_is_none") and d is not None:
+                                    part.violation("payload-roundtrip", f"{site}:decode", w, f"reference {_show(ref)} decodes to {d!r:.120}, expected None")
+                                if not pod and case["decoded"] is not None and not sg.same(d, case["decoded"]) and not (
+                                        isinstance(case["decoded"], int) and isinstance(d, int) and int(d) == int(case["decoded"]) and type(d) is type(case["decoded"])):
+                                    part.violation("payload-roundtrip", f"{site}:decode", w, f"selector {case['sel']}: reference {_show(ref)} decodes to "
+                                                                                           f"{d!r:.120}, expected {case['decoded']!r:.120}")
+                                again = ser.serialize(block, d)
+                                if not _same_raw(again, ref):
+                                    part.violation("payload-roundtrip", f"{site}:{'pod' if pod else 'obj'}", w,
+                                                   f"selector {case['sel']}: reference {_show(ref)} -> {d!r:.120} -> {_show(again)}")
+                        except Exception as e:
+                            part.violation("payload-roundtrip", f"{site}:raises", w, f"selector {case['sel']}: {e!r} while round-tripping reference {_show(ref)}")
+                # a failed encode in one subclass must not leak into the next encode of another
+                for i in order:
+                    if "bad" not in plist[i]:
+                        continue
+                    for j in order:
+                        if j == i:
+                            continue
+                        try:
+                            plist[i]["ser"].serialize(plist[i]["block"](plist[i]["bad_sel"]), plist[i]["bad"])
+                        except Exception:
+                            pass
+                        case = plist[j]["cases"][-1] if plist[j]["cases"][-1]["value"] is not None else plist[j]["cases"][0]
+                        n += 1
+                        try:
+                            got = plist[j]["ser"].serialize(plist[j]["block"](case["sel"]), case["value"])
+                        except Exception as e:
+                            got = e
+                        if not _same_raw(got, case["ref"]):
+                            part.violation("encode-independent", f"second-subclass:{base}:{plist[j]['name']}:after-failed-encode:foreign", w,
+                                           f"after a failed encode in {plist[i]['name']}: {_show(got)}, reference {_show(case['ref'])}")
+                part.mark_nontrivial(("second-subclass", base, order))
+        if set(keys) - set(se.SUBFIELD_SERIALIZERS):
+            part.violation("payload-roundtrip", "second-subclass:registration-helpers:registry", {"kind": "second-subclass", "base": "registration-helpers",
+                                                                                                "order": [0]}, "a registration helper did not register its key")
+    finally:
+        for k in set(se.SUBFIELD_SERIALIZERS) - before:
+            se.SUBFIELD_SERIALIZERS.pop(k, None)
+    return n
+
+
+def unit_second(_item=None) -> dict:
+    part = Part()
+    n = run_second_subclass(part)
+    part.count("evaluations", n)
+    part.count("second_subclass_cases", n)
+    part.outcome(("second-subclass", n))
+    part.sample({"family": "second-subclass", "bases": ["FlagSwitched", "EnumSwitched", "Simple", "Adapter", "AdapterInstance", "registration-helpers"],
+                 "cases": n}, limit=1)
+    return part.dump()
+
+
 # ------------------------------------------------------------------------------------------------ driver
 def _work(item) -> dict:
     """One unit; name-misses of the introspection layer and entries that lost template generation during the unit are
@@ -1225,6 +1472,8 @@ def _work_unit(item) -> dict:
         return unit_assign(_ENTRIES[item[1]])
     if kind == "history":
         return unit_history(_ENTRIES[item[1]])
+    if kind == "second":
+        return unit_second()
     raise ValueError(kind)
 
 
@@ -1292,6 +1541,7 @@ def run(run: Run):
             units.append(("assign", e.idx))
         if e.kind == "payload":
             units.append(("history", e.idx))
+    units.append(("second", 0))
     order = heavy + units
     _worked_samples(run)
     coord_fallbacks = dict(ins.FALLBACKS)  # the coordinator's own share (registry view, slicing); workers report theirs
@@ -1361,6 +1611,10 @@ def run(run: Run):
 
 # ------------------------------------------------------------------------------------------------ replay
 def _replay_local(w: dict) -> List[dict]:
+    if w.get("kind") == "second-subclass":
+        part = Part()
+        run_second_subclass(part, only_base=w.get("base"))
+        return list(part.viol.values())
     key = tuple(w["key"])
     ent = next(e for e in _ENTRIES if e.key == key)
     part = Part()
